@@ -179,8 +179,9 @@ def run_limited(args: list[str], cpu_s: int, wall_s: float, cwd: str | None = No
 	limit. -> (returncode, stdout, stderr, '' | 'cpu-limit' | 'wall-timeout'). Only `cpu-limit` says something about the program
 	(it does not terminate); `wall-timeout` says the machine did not give it `cpu_s` seconds of CPU within `wall_s` seconds:
 	callers skip and count such a run, they never report it."""
-	mem = f'ulimit -S -v {int(mem_kb)} && ' if mem_kb else ''   # an endless loop that allocates ends in std::bad_alloc, not in the OOM killer
-	cmd = ['sh', '-c', f'{mem}ulimit -S -t {int(cpu_s)} && exec "$@"', 'sh', *args]
+	# (a shell without one of the limits still runs the program: then only the wall limit bounds it, and a wall timeout is never a verdict)
+	mem = f'ulimit -S -v {int(mem_kb)} 2>/dev/null; ' if mem_kb else ''   # an endless loop that allocates ends in std::bad_alloc, not in the OOM killer
+	cmd = ['sh', '-c', f'{mem}ulimit -S -t {int(cpu_s)} 2>/dev/null; exec "$@"', 'sh', *args]
 	try:
 		p = subprocess.run(cmd, capture_output=True, text=True, timeout=wall_s, cwd=cwd, errors='replace')
 	except subprocess.TimeoutExpired as e:
